@@ -104,6 +104,45 @@ def run(ctx):
         members[o.stem] = nm_syms(o)
     so_defs, _ = nm_syms(lib / "build" / "libcstl.so", dynamic=True)
 
+    # ---- clients are not all compiled like the library: what a header declares may depend on the client's own settings
+    # (NDEBUG, optimisation, target features, language dialect).  For each variant, everything a header declares with
+    # external linkage and the including TU does not define must still be provided by both libcstl.a and libcstl.so.
+    lib_defs = set().union(*[d for d, _ in members.values()]) if members else set()
+    variants = [("-O2 -DNDEBUG", ["-O2", "-DNDEBUG"]), ("-march=native", ["-march=native"]),
+                ("-std=gnu99 -D_GNU_SOURCE", ["-std=gnu99", "-D_GNU_SOURCE"]), ("-O3 -msse4.2 -mavx2", ["-O3", "-msse4.2", "-mavx2"])]
+    (W / "empty_tu.c").write_text("int verif_empty_tu;\n")
+    variants = [v for v in variants      # a flag this compiler / machine does not take says nothing about the headers
+                if sh(["gcc", "-std=c99"] + v[1] + ["-c", str(W / "empty_tu.c"), "-o", str(W / "empty_tu.o")])[0] == 0]
+    def variant_job(job):
+        (label, vf), h = job
+        src = W / f"one_{h}.c"
+        o = W / f"var_{abs(hash(label)) % 100000}_{h}.o"
+        base = ["gcc", "-std=c99", "-D_POSIX_C_SOURCE=199309L", "-I", str(inc)] + vf
+        rc, out = sh(base + ["-c", str(src), "-o", str(o)])
+        if rc != 0:
+            return label, h, "compile", out
+        defs_here, _ = nm_syms(o)
+        aux = Path(str(o) + ".aux")
+        sh(base + ["-aux-info", str(aux), "-fsyntax-only", str(src)])
+        need = set()
+        for l in open(aux, errors="replace"):
+            m = re.match(r"/\* (\S+):\d+:(\w)(\w) \*/ (extern|static) .*?\b(\w+) \(", l)
+            if m and "/include/cstl/" in m.group(1) and is_ours(m.group(5)) and m.group(4) == "extern":
+                need.add(m.group(5))
+        return label, h, "ok", sorted(need - defs_here - (lib_defs & so_defs))
+    nvar = 0
+    with ThreadPoolExecutor(max_workers=NCPU) as ex:
+        for label, h, st, res in ex.map(variant_job, [(v, h) for v in variants for h in headers]):
+            nvar += 1
+            if st == "compile":
+                violation(ctx, f"header {h}.h does not compile in a client built with {label}: {(res.strip().splitlines() or [''])[-1]}",
+                          {"signature": f"compile-variant:{h}", "output": res[-2000:]})
+                viol += 1
+            elif res:
+                violation(ctx, f"a client built with {label} sees {h}.h declare {', '.join(res[:4])}, which neither the header nor libcstl.a / libcstl.so provides",
+                          {"signature": f"variant-undefined:{h}", "symbols": res})
+                viol += 1
+    ctx.cov["client_variants_checked"] = {"variants": [v[0] for v in variants], "header_compiles": nvar}
     # ---- the model over every configuration
     def fn(d):
         return "[h \\in Headers |-> CASE " + " [] ".join(f'h = "{h}" -> {tla_set(d[h])}' for h in headers) + "]"
